@@ -306,7 +306,28 @@ def run(ck: Check) -> None:
                        "components": comp, "original_case_index": ci, "n_failing_steps": len(failures),
                        "predicate": "RunOpt.step_ok (one Optimizer.group_step from the observed state, tol 1e-9)"})
 
+    # other dtype pairings: errors / dtype tags / loose bound only
+    pairs = [(a, b) for a in ("float32", "float64", "bfloat16") for b in ("float32", "float64", "bfloat16")]
+    dcases = [c for c in cases[ncorpus:] if "error" not in results[cases.index(c)]][: (6 if not thorough else 30)]
+    for c in dcases:
+        c["groups"][0]["cfg"]["eps"] = max(c["groups"][0]["cfg"]["eps"], 1e-2)
+    jobs = [(c, a, b) for c in dcases for a, b in pairs]
+    with mp.get_context("fork").Pool(16) as pool:
+        dres = pool.map(dtype_worker, jobs, chunksize=1)
+    dt_hist = {}
+    for (c, a, b), r in zip(jobs, dres):
+        key = f"{a}/{b}"
+        dt_hist.setdefault(key, {"runs": 0, "max_dev": 0.0})
+        dt_hist[key]["runs"] += 1
+        if r["dev"] == r["dev"] and r["dev"] != float("inf"):
+            dt_hist[key]["max_dev"] = max(dt_hist[key]["max_dev"], round(r["dev"], 6))
+        budget = 1e-6 if (a, b) == ("float64", "float64") else (5e-2 if "bfloat16" not in (a, b) else 1.0)
+        if r["error"] or r["bad_dtypes"] or not (r["dev"] <= budget):
+            ck.report(None, f"dtype pairing param={a} preconditioner={b}: " + (r["error"] or "; ".join(r["bad_dtypes"][:3]) or f"deviation {r['dev']:.3g} from the float64 run exceeds the loose budget {budget}"),
+                      {"kind": "dtype-pairing", "case": c, "param_dtype": a, "preconditioner_dtype": b, "result": r})
+
     ck.coverage.update({
+        "dtype_pairings": dt_hist,
         "evaluations": nsteps,
         "distinct_nontrivial": nontrivial,
         "rule": "random configurations (preconditioner kind x solver, grafting, betas/beta3, bias correction, decay value/mode, momentum/dampening/Nesterov, root override, exponent multiplier, ignored dims, max_preconditioner_dim, merge, frequency/start, 1-2 groups with overrides, lr/wd/momentum edits) x parameter sets of orders 0..4 x histories of 4-10 steps with absent gradients; evaluation = one (step, group) compared inside coqc; non-trivial = a case with at least one refresh step (oracle called) and one non-refresh step at or after the start step",
@@ -316,6 +337,53 @@ def run(ck: Check) -> None:
     })
     ck.assumptions += ["binary64 parameters and preconditioner_dtype only", "oracle answers recorded from the implementation's own matrix routines",
                        "steps that raise (failure tolerance exceeded, non-finite factor) are excluded here and covered by C13"]
+
+
+def dtype_worker(args):
+    """Control-flow / dtype-tag tie for the other dtype pairings: the step must not raise, state tensors carry the documented
+    dtypes, and the parameters stay within a loose bound of the float64 run (values are NOT tied at these precisions)."""
+    import logging
+    import torch
+    logging.disable(logging.CRITICAL)
+    case, pdt, fdt = args
+    pd, fd = getattr(torch, pdt), getattr(torch, fdt)
+    from distributed_shampoo.utils.shampoo_preconditioner_list import ADAGRAD, SHAMPOO
+    from distributed_shampoo.shampoo_types import FILTERED_GRAD, MOMENTUM
+    out = {"pdt": pdt, "fdt": fdt, "error": None, "bad_dtypes": [], "dev": 0.0}
+    try:
+        ref_params = optrun.build_params(case)
+        ref = optrun.build_optimizer(case, ref_params)
+        params = [[torch.nn.Parameter(p.detach().to(pd)) for p in g] for g in ref_params]
+        opt = optrun.build_optimizer(case, params, dtype=fd)
+        for step in case["steps"]:
+            optrun.set_grads(case, ref_params, step)
+            for g, rg in zip(params, ref_params):
+                for p, rp in zip(g, rg):
+                    p.grad = None if rp.grad is None else rp.grad.to(pd)
+            ref.step()
+            opt.step()
+        for gi in range(len(params)):
+            blocks, infos = optrun.group_handles(opt, gi)
+            for blk, info in zip(blocks, infos):
+                bs = opt.state[info.param][info.composable_block_ids[1]]
+                kf = bs[SHAMPOO]
+                want = [(m.dtype, fd, "factor_matrices") for m in kf.factor_matrices]
+                want += [(m.dtype, pd, "inv_or_eigvecs") for m in getattr(kf, "inv_factor_matrices", getattr(kf, "factor_matrices_eigenvectors", ()))]
+                for key in (ADAGRAD, FILTERED_GRAD, MOMENTUM):
+                    if key in bs:
+                        want.append((bs[key].dtype, pd, key))
+                out["bad_dtypes"] += [f"{n}: {a} != {b}" for a, b, n in want if a != b]
+        dev = 0.0
+        for g, rg in zip(params, ref_params):
+            for p, rp in zip(g, rg):
+                if not torch.isfinite(p).all():
+                    dev = float("inf")
+                else:
+                    dev = max(dev, float((p.double() - rp).abs().max() / (1.0 + rp.abs().max())))
+        out["dev"] = dev
+    except Exception as e:  # noqa
+        out["error"] = f"{type(e).__name__}: {e}"[:300]
+    return out
 
 
 def classify(case) -> str | None:
